@@ -4,6 +4,7 @@ Line-protocol driver for the coordinate-system model (C01).
 -/
 import DarsiaModel.Basic
 import DarsiaModel.Coord
+import DarsiaModel.Slice
 open Darsia
 
 def pDim : P Dim := do let t ← P.tok; match Dim.parse t with | some d => pure d | none => failure
@@ -57,6 +58,14 @@ def handle : P String := do
     | "vox" => pure (showInts (mkVoxel xs))
     | "ctr" => pure (showRats (mkCenter xs))
     | _ => failure
+  | "slicen" => do
+    -- Image.slice(cut, name): matrix axis and index selected
+    let n ← P.tok; let cs ← pCS; let cut ← P.rat; P.done
+    let a ← Ax.parse n
+    pure (showExcept (fun r => s!"{r.1} {r.2}") (sliceByName cs a cut))
+  | "slicei" => do
+    let cs ← pCS; let p ← P.nat; let v ← P.int; P.done
+    pure (showExcept (fun r => s!"{r.1} {r.2}") (sliceByIndex cs p v))
   | "ptto" => do
     let k ← P.tok; let cs ← pCS; let pt ← pPt; P.done
     let kind ← (match k with | "coord" => some PtKind.coord | "vox" => some PtKind.vox | "ctr" => some PtKind.ctr | "other" => some PtKind.other | _ => none : Option PtKind)
